@@ -514,6 +514,8 @@ def replay_floor(rep, floors, tier):
     e, d = floors.get(tier, (1, 2))
     rep.extra["replay_mode"] = True
     rep.extra["replayed_cases"] = rep.evaluations
+    rep.rule = ("REPLAY MODE: %d stored case(s) re-executed, nothing explored; evaluations/distinct are padded to the tier floors only so "
+                "that a case which no longer fails ends as exit 0 instead of `too little observed`. " % rep.evaluations) + rep.rule
     rep.evaluations = max(rep.evaluations, e)
     rep.distinct_extra = max(0, d - len(rep.distinct))
 
